@@ -672,10 +672,21 @@ def c17_edit_case(rng, res, batch, tag):
     top = objs[0]
     hist = []
     for _ in range(rng.randint(2, 5)):
-        op = rng.choice(["add", "remove", "bypass", "query", "readd", "newjob"])
+        op = rng.choice(["add", "remove", "bypass", "query", "readd", "newjob", "move", "move"])
         members = [j.jid for j in top.jobs]
         if len(members) < 2:
             break
+        if op == "move":
+            # one link taken away and another one put in, no query in between: same jobs, same number of links
+            cands = [(x, r.jid) for x in members for r in objs[x].required if r.jid in members]
+            fresh = [(x, y) for x in members for y in members if x > y and objs[y] not in objs[x].required]
+            if not cands or not fresh:
+                continue
+            x, y = rng.choice(cands)
+            x2, y2 = rng.choice(fresh)
+            objs[x].required.discard(objs[y])
+            objs[x2].requires(objs[y2])
+            hist.append(["move", x, y, x2, y2])
         if op == "add":
             x, y = sorted(rng.sample(members, 2), reverse=True)
             objs[x].requires(objs[y])
@@ -1347,7 +1358,13 @@ def gen_prog(rng, maxlen=10):
             prog.append(("newSeq", q, seq_items(), gen_arg(rng, jobs, seqs) if rng.random() < 0.4 else ("N",), sch))
             seqs.append(q)
         elif k == "append":
-            prog.append(("append", rng.choice(seqs), seq_items()))
+            q = rng.choice(seqs)
+            # (the sequence as a requirement just before and just after it is extended: it stands for its current last job)
+            if jobs and rng.random() < 0.3:
+                prog.append(("requires", rng.choice(jobs), [("Q", q)], False))
+            prog.append(("append", q, seq_items()))
+            if jobs and rng.random() < 0.3:
+                prog.append(("requires", rng.choice(jobs), [("Q", q)], rng.random() < 0.3))
         elif k == "seqRequires":
             prog.append(("seqRequires", rng.choice(seqs), [gen_arg(rng, jobs, seqs) for _ in range(rng.randint(0, 2))]))
         elif k == "add":
@@ -1408,6 +1425,13 @@ def run_C19(tier, seed, res, drv, replay=None):
     L = lambda *xs: ("C", "list", list(xs))
     base = [("newJob", i, N, None) for i in range(5)]
     corpus = [
+        # a sequence used as a requirement, extended, used again (also with remove=True): it stands for its *current* last job
+        base + [("newSeq", 0, [J(0), J(1)], N, None), ("requires", 3, [Q(0)], False), ("append", 0, [J(2)]), ("requires", 4, [Q(0)], False)],
+        base + [("newSeq", 0, [J(0)], N, None), ("requires", 3, [Q(0)], False), ("append", 0, [J(1)]), ("requires", 3, [Q(0)], False),
+                ("append", 0, [J(2)]), ("requires", 3, [Q(0)], True), ("requires", 4, [L(Q(0))], False)],
+        base + [("newSeq", 0, [J(0)], N, None), ("newSeq", 1, [J(3)], Q(0), None), ("append", 0, [J(1)]), ("newSeq", 2, [J(4)], Q(0), None)],
+        base + [("newSeq", 0, [J(0), J(1)], N, None), ("append", 0, [J(2)])],
+    ] + [
         base + [("newSeq", 0, [J(0)], N, None), ("append", 0, [J(1), J(2)])],
         base + [("newSeq", 0, [J(0), J(1)], N, None), ("append", 0, [N])],
         base + [("newSeq", 0, [], N, None), ("append", 0, [J(1), J(2), J(3)])],
